@@ -449,6 +449,12 @@ class IMAPClientCommand:
         #
         self.ready = asyncio.Event()
 
+        # If the management task failed while admitting this command (for
+        # example the message set names messages that do not exist) the
+        # exception is stored here and raised by `ready_and_okay()`.
+        #
+        self.error: Exception | None = None
+
         # when the task executing this IMAPClientCommand finished it sets
         # `completed` to True so that the mbox management task knows that this
         # command has finished.
@@ -466,6 +472,8 @@ class IMAPClientCommand:
         try:
             mbox.task_queue.put_nowait(self)
             await self.ready.wait()
+            if self.error is not None:
+                raise self.error
             if mbox.deleted:
                 from .mbox import NoSuchMailbox
 
